@@ -53,6 +53,7 @@ type CaseStats struct {
 	Forks         int
 	Steps         int64
 	AssertsProved int
+	AssertsConcrete int
 	AssertQueries int
 	Inconclusive  []string
 	Covers        map[string]int
@@ -357,6 +358,7 @@ func (in *Interp) decideAssert(cond *Term, msg string, kind string) {
 	}
 	in.cs.AssertSites[msg]++
 	if cond == in.tb.True {
+		in.cs.AssertsConcrete++
 		return
 	}
 	in.noteSym()
